@@ -17,6 +17,7 @@ arguments only, whatever else is alive.  Yielded chunks are also re-read at the 
 (a chunk that changes after it was yielded is a violation: `b"".join(chunks(...))` reads them late).
 """
 import hashlib, io, itertools, json, os, struct, sys, tempfile, wave
+from fractions import Fraction
 import common
 from common import enc, err_kind
 from props import c18_res
@@ -80,7 +81,12 @@ MANIFEST = {
 }
 
 NATIVE = "<" if sys.byteorder == "little" else ">"
-WIDTH = {"b": 1, "h": 2, "i": 4, "f": 4, "d": 8}
+LONG = struct.calcsize("l")                    # the machine's long (array('l').itemsize; struct 'l' without a std prefix)
+WIDTH = {"b": 1, "h": 2, "i": 4, "f": 4, "d": 8, "B": 1, "H": 2, "I": 4, "q": 8, "Q": 8, "l": 4, "L": 4}
+INTFMT = "bhiBHIqQlL"
+MOREFMT = "BHIqQlL"                            # the other integer formats of the struct table
+ALLFMT = "bhifd" + MOREFMT
+STD_ORDERS = ("=", "<", ">", "!")              # prefixes with standard sizes (l, L are 4 bytes)
 ORDERS = ["omit", None, "@", "=", "<", ">", "!"]
 ORDER_REQ = {"omit": None, None: None, "@": None, "=": None, "<": "<", ">": ">", "!": ">"}
 F32MAX = 3.4028234663852886e38
@@ -92,12 +98,23 @@ def f2j(x):
 
 def j2v(j):
     if isinstance(j, dict):
+        if "b" in j:
+            return bool(j["b"])
+        if "q" in j:
+            return Fraction(j["q"][0], j["q"][1])
         return struct.unpack("<d", struct.pack("<Q", j["f"]))[0]
     return j
 
 
+def frac2j(p, q):
+    """a Fraction as it is spelled, with the double float() makes of it (what the float formats pack)"""
+    return {"q": [p, q], "f": f2j(float(Fraction(p, q)))["f"]}
+
+
 def int_range(fmt):
     b = 8 * WIDTH[fmt]
+    if fmt in "BHIQL":
+        return 0, (1 << b) - 1
     return -(1 << (b - 1)), (1 << (b - 1)) - 1
 
 
@@ -105,13 +122,13 @@ def rand_int(rng, fmt):
     lo, hi = int_range(fmt)
     r = rng.random()
     if r < 0.25:
-        return rng.choice([lo, hi, lo + 1, hi - 1, -1, 0, 1])
+        return max(lo, min(hi, rng.choice([lo, hi, lo + 1, hi - 1, -1, 0, 1])))
     if r < 0.45:
-        k = rng.choice([7, 8, 15, 16, 23, 24, 31])
+        k = rng.choice([7, 8, 15, 16, 23, 24, 31, 32, 63])
         v = rng.choice([1, -1]) * ((1 << k) + rng.choice([-1, 0, 1]))
         return max(lo, min(hi, v))
     if r < 0.7:
-        return rng.randint(-130, 130) if fmt != "b" else rng.randint(lo, hi)
+        return max(lo, min(hi, rng.randint(-130, 130))) if fmt not in "bB" else rng.randint(lo, hi)
     return rng.randint(lo, hi)
 
 
@@ -130,12 +147,21 @@ def rand_float(rng, fmt):
 
 
 def rand_vals(rng, fmt, n):
-    if fmt in "bhi":
-        return [rand_int(rng, fmt) for _ in range(n)]
+    if fmt in INTFMT:
+        out = [rand_int(rng, fmt) for _ in range(n)]
+        for i in range(n):
+            if rng.random() < 0.05:
+                out[i] = {"b": rng.random() < 0.5}       # a bool is an integer (True packs as 1)
+        return out
     out = []
     for _ in range(n):
-        if rng.random() < 0.15:
+        r = rng.random()
+        if r < 0.15:
             out.append(rng.randint(-100, 100))          # ints are accepted by the float formats
+        elif r < 0.19:
+            out.append({"b": rng.random() < 0.5})
+        elif r < 0.27:                                  # a Fraction goes through its float()
+            out.append(frac2j(rng.randint(-1000, 1000), rng.choice([1, 2, 3, 7, 8, 10, 1024, 3 ** 20])))
         else:
             out.append(f2j(rand_float(rng, fmt)))
     return out
@@ -196,6 +222,16 @@ def generate(rng, tier, scale=1):
                         pad = rand_vals(rng, fmt, 1)[0] if rng.random() < 0.7 else (0 if fmt in "bhi" else f2j(0.0))
                         for strategy in ("struct", "array"):
                             cases.append(chunk_case(fmt, order, size, xs, pad, strategy))
+        # the other integer formats of the struct table: every format x byte-order spelling x strategy
+        for fmt in MOREFMT:
+            for order in ORDERS:
+                for size in (1, 2, 3, 4):
+                    for n in sorted({0, 1, size - 1, size, size + 1, 2 * size + 1}):
+                        if quick and (n + size + ORDERS.index(order)) % 2:
+                            continue
+                        for strategy in ("struct", "array"):
+                            cases.append(chunk_case(fmt, order, size, rand_vals(rng, fmt, n), rand_vals(rng, fmt, 1)[0],
+                                                    strategy))
         # sizes at the limits of the formats (array fill) and the default-size route
         for size in (127, 128, 129, 200, 2048):
             for strategy in ("struct", "array"):
@@ -205,7 +241,7 @@ def generate(rng, tier, scale=1):
             cases.append(chunk_case("h", "<", 32769, [1, 2, 3], 0, "array"))
     nrand = (700 if quick else 12000) * scale
     for _ in range(nrand):
-        fmt = rng.choice("bhifd")
+        fmt = rng.choice("bhifd" if rng.random() < 0.6 else MOREFMT)
         size = rng.choice([1, 2, 3, rng.randint(1, 9), rng.randint(1, 40)])
         n = max(0, rng.choice([0, size - 1, size, size + 1, 2 * size, 3 * size - 1, rng.randint(0, 60)]))
         xs = rand_vals(rng, fmt, n)
@@ -217,25 +253,35 @@ def generate(rng, tier, scale=1):
         if fmt in "fd" and rng.random() < 0.15:
             pad = f2j(0.0)
             kw["pad_route"] = "default"               # padval omitted -> 0.
-        if rng.random() < 0.3:
-            kw["seq_route"] = rng.choice(["iter", "stream", "tuple"])
-        cases.append(chunk_case(fmt, rng.choice(ORDERS), size, xs, pad, rng.choice(["struct", "array"]), **kw))
+        if rng.random() < 0.4:
+            kw["seq_route"] = rng.choice(["iter", "stream", "tuple", "gen", "endless", "endless"])
+            if kw["seq_route"] == "endless":           # an endless source: only whole chunks are ever asked for
+                xs = (xs + rand_vals(rng, fmt, size))[: max(1, len(xs) // size) * size]
+        if fmt == "f" and rng.random() < 0.3:
+            kw["dfmt_route"] = "default"               # dfmt omitted -> "f"
+        kw["shape"] = rng.choice(["kw", "kw", "pos", "mixed", "entry"])
+        strategy = rng.choice(["struct", "array"])
+        cases.append(chunk_case(fmt, rng.choice(ORDERS), size, xs, pad, strategy, **kw))
     # malformed stream
     for _ in range((60 if quick else 600) * scale):
-        fmt = rng.choice("bhi")
+        fmt = rng.choice("bhi" + MOREFMT)
         size = rng.randint(1, 6)
         n = rng.randint(0, 14)
         xs = rand_vals(rng, fmt, n)
         pad = rand_vals(rng, fmt, 1)[0]
-        kind = rng.choice(["range", "float-item", "float-pad", "default-pad"])
+        kind = rng.choice(["range", "float-item", "float-pad", "default-pad", "frac-item", "frac-pad"])
         lo, hi = int_range(fmt)
         kw = {"malformed": kind}
         if kind == "range" and n:
-            xs[rng.randrange(n)] = rng.choice([hi + 1, lo - 1, hi + rng.randint(1, 1000), 1 << 40])
+            xs[rng.randrange(n)] = rng.choice([hi + 1, lo - 1, hi + rng.randint(1, 1000), 1 << 40, 1 << 64, -(1 << 63) - 1])
         elif kind == "float-item" and n:
             xs[rng.randrange(n)] = f2j(rng.choice([0.0, 1.5, -2.0]))
         elif kind == "float-pad":
             pad = f2j(rng.choice([0.0, 1.0]))
+        elif kind == "frac-item" and n:
+            xs[rng.randrange(n)] = frac2j(rng.choice([3, 1, 0]), rng.choice([1, 2]))     # even an integral Fraction
+        elif kind == "frac-pad":
+            pad = frac2j(rng.choice([0, 1]), 1)
         else:
             pad = f2j(0.0)
             kw["pad_route"] = "default"
@@ -375,26 +421,61 @@ def impl_wav(c):
     return obs
 
 
+class _Counted(object):
+    """an iterable that counts what was pulled from it; endless: `xs` then its last item for ever"""
+    def __init__(self, xs, endless):
+        self.xs, self.endless, self.pulled = xs, endless, 0
+
+    def __iter__(self):
+        for x in self.xs:
+            self.pulled += 1
+            yield x
+        while self.endless:
+            self.pulled += 1
+            yield self.xs[-1] if self.xs else 0
+
+
 def impl_chunks(c):
     from audiolazy import chunks, Stream
     f = chunks.struct if c["strategy"] == "struct" else chunks.array
+    shape = c.get("shape", "kw")
+    if shape == "entry" and c["strategy"] == "struct" and getattr(chunks, "default", None) is chunks.struct:
+        f = chunks                                   # the StrategyDict itself: its default strategy
     xs = [j2v(x) for x in c["xs"]]
     sr = c.get("seq_route")
-    seq = iter(xs) if sr == "iter" else Stream(xs) if sr == "stream" else tuple(xs) if sr == "tuple" else xs
-    kw = {"dfmt": c["fmt"]}
+    counted = None
+    if sr in ("gen", "endless"):
+        counted = _Counted(xs, sr == "endless")
+        seq = iter(counted)
+    else:
+        seq = iter(xs) if sr == "iter" else Stream(xs) if sr == "stream" else tuple(xs) if sr == "tuple" else xs
+    given = {}
+    if c.get("dfmt_route") != "default":
+        given["dfmt"] = c["fmt"]
     if c["order"] != "omit":
-        kw["byte_order"] = c["order"]
+        given["byte_order"] = c["order"]
     if c.get("pad_route") != "default":
-        kw["padval"] = j2v(c["pad"])
+        given["padval"] = j2v(c["pad"])
     old = chunks.size
     out, raw, err, msg = [], [], None, None
     try:
         if c.get("size_route") == "default":
             chunks.size = c["size"]
         else:
-            kw["size"] = c["size"]
+            given["size"] = c["size"]
+        # call shape: keywords / as many positionals as the given parameters allow / the first one positional
+        names = ["size", "dfmt", "byte_order", "padval"]
+        npos = 0
+        if shape in ("pos", "mixed"):
+            while npos < len(names) and names[npos] in given and (shape == "pos" or npos < 1):
+                npos += 1
+        args = [given[k] for k in names[:npos]]
+        kw = {k: v for k, v in given.items() if k not in names[:npos]}
         try:
-            for ch in f(seq, **kw):
+            g = f(seq, *args, **kw)
+            if sr == "endless":
+                g = itertools.islice(g, len(xs) // c["size"])
+            for ch in g:
                 raw.append(ch)
                 out.append(list(bytes(ch)))
         except Exception as e:
@@ -403,7 +484,10 @@ def impl_chunks(c):
         chunks.size = old
     # the chunks are read again once the generator is finished (what b"".join(chunks(...)) sees)
     aliased = any(list(bytes(r)) != o for r, o in zip(raw, out))
-    return {"out": out, "err": err, "msg": msg, "aliased": aliased}
+    o = {"out": out, "err": err, "msg": msg, "aliased": aliased}
+    if counted is not None:
+        o["pulled"] = counted.pulled
+    return o
 
 
 def impl(c):
@@ -421,6 +505,7 @@ def request(c):
         return request_res(c)
     if c["entry"] == "chunks":
         return {"entry": "chunks", "fmt": c["fmt"], "native": NATIVE, "order": ORDER_REQ[c["order"]],
+                "std": c["order"] in STD_ORDERS, "long": LONG,
                 "size": c["size"], "pad": c["pad"], "xs": c["xs"]}
     data = pcm_bytes(c["bits"], c["samples"])
     if c.get("cut"):
@@ -466,14 +551,19 @@ def compare(c, io_, drv):
                 c["strategy"], _s(io_["out"]), io_["err"], _s(sp["out"]), sp["err"])))
         elif sp["err"] is None:
             # the property in its own words, against Python's struct
-            w = WIDTH[c["fmt"]]
+            w = drv["width"] if c["strategy"] == "struct" else drv["awidth"]
             flat = bytes(b for ch in io_["out"] for b in ch)
-            ref = python_pack(c)
+            # l / L under a standard-size prefix: 4 bytes for struct, the machine's long in an array (the
+            # docstring's "dfmt symbols for arrays might differ"): outside the property's formats, model only
+            ref = python_pack(c) if drv["width"] == drv["awidth"] else None
+            if "pulled" in io_ and io_["pulled"] != len(c["xs"]) + (0 if c.get("seq_route") == "endless" else 0):
+                out.append(("model", "the generator pulled %d items from its source for %d chunks of %d" % (
+                    io_["pulled"], len(io_["out"]), c["size"])))
             if any(len(ch) != c["size"] * w for ch in io_["out"]):
                 out.append(("spec", "a chunk is not size*width bytes"))
             elif ref is not None and flat != ref:
                 out.append(("spec", "concatenated chunks differ from struct.pack of the padded sequence"))
-            elif ref is None and not c.get("malformed") and c["strategy"] == "struct":
+            elif ref is None and not c.get("malformed") and c["strategy"] == "struct" and drv["width"] == drv["awidth"]:
                 out.append(("spec", "struct refuses the padded sequence but chunks succeeded"))
         return out
     # wav
@@ -555,11 +645,20 @@ def tally(eng, c, io_):
         eng.count("chunks.n_chunks", min(len(io_.get("out", [])), 8))
         eng.count("chunks.impl_err", str(io_.get("err")))
         eng.count("chunks.regime", "malformed:" + c["malformed"] if c.get("malformed") else
-                  ("int-exact" if c["fmt"] in "bhi" else "ieee-bytes-exact"))
-        for k in ("size_route", "pad_route", "seq_route"):
+                  ("int-exact" if c["fmt"] in INTFMT else "ieee-bytes-exact"))
+        for k in ("size_route", "pad_route", "seq_route", "dfmt_route"):
             if c.get(k):
                 eng.count("chunks.route", k + "=" + c[k])
-        if c["fmt"] in "bhi":
+        eng.count("chunks.call_shape", c.get("shape", "kw"))
+        sp = {"int": 0, "float": 0, "bool": 0, "Fraction": 0}
+        for v in list(c["xs"]) + [c["pad"]]:
+            sp["int" if isinstance(v, int) else "bool" if "b" in v else "Fraction" if "q" in v else "float"] += 1
+        for k, v in sp.items():
+            if v:
+                eng.count("chunks.value_spelling(cases having)", k)
+        eng.count("chunks.long_format_width", "n/a" if c["fmt"] not in "lL" else
+                  "std-prefix:struct4/array%d" % LONG if c["order"] in STD_ORDERS else "native:%d" % LONG)
+        if c["fmt"] in INTFMT:
             lo, hi = int_range(c["fmt"])
             vs = [v for v in c["xs"] if isinstance(v, int)]
             eng.count("chunks.has_extreme", bool(vs) and (lo in vs or hi in vs))
@@ -597,7 +696,7 @@ def shrink(c):
         if xs:
             yield dict(c, xs=xs[:-1])
             yield dict(c, xs=xs[1:])
-            if c["fmt"] in "bhi":
+            if c["fmt"] in INTFMT:
                 for i, v in enumerate(xs):
                     if isinstance(v, int) and v not in (0, 1):
                         for nv in (1, -1, int(v / 2)):
@@ -610,8 +709,9 @@ def shrink(c):
         if c["size"] > 1:
             yield dict(c, size=c["size"] - 1)
             yield dict(c, size=(c["size"] + 1) // 2)
-        for k in ("size_route", "pad_route", "seq_route"):
-            if c.get(k) and not (k == "pad_route" and c.get("malformed")):
+        for k in ("size_route", "pad_route", "seq_route", "dfmt_route", "shape"):
+            if c.get(k) and not (k == "pad_route" and c.get("malformed")) and not (
+                    k == "seq_route" and c[k] == "endless" and len(c["xs"]) % c["size"]):
                 d = dict(c)
                 d.pop(k)
                 yield d
